@@ -10,7 +10,11 @@ import NakenVerif.Common.Walk
 namespace NakenVerif.Msp430.Disasm
 open NakenVerif.Generated.Msp430Dis
 
-macro:max "t!" s:str : term => `(($s : String).toList)
+/-- `t!"abc"` is the character list `['a', 'b', 'c']` (expanded when the file is elaborated, so that no proof has
+    to evaluate a string literal) -/
+macro:max "t!" s:str : term => do
+  let elems ← s.getString.toList.toArray.mapM (fun c => `($(Lean.Syntax.mkCharLit c)))
+  `([$elems,*])
 
 /-! ### numerals -/
 
@@ -128,24 +132,40 @@ def relativeJump (addr : BitVec 32) (instr : List Char) (opcode : BitVec 16) (pf
   let x : List Char := if pfx.isSome then t!"x" else []
   (instr ++ x ++ t!" 0x" ++ hex 4 ((addr + 2 + off) &&& 0xffff) ++ t!"  (offset: " ++ dec off ++ t!")", 2)
 
+/-- which of the `if … else if …` alias tests of `two_operand` is the first to hold (0 = none) -/
+def aliasKind (opcode : BitVec 16) : Nat :=
+  if opcode &&& 0x00ff = 0x0003 then 1
+  else if opcode = 0x4130 then 2
+  else if opcode &&& 0xffb0 = 0x4130 then 3
+  else if opcode &&& 0xffb0 = 0x41b0 then 4
+  else if opcode = 0xc312 then 5
+  else if opcode = 0xc222 then 6
+  else if opcode = 0xc322 then 7
+  else if opcode = 0xc232 then 8
+  else if opcode = 0xd312 then 9
+  else if opcode = 0xd222 then 10
+  else if opcode = 0xd322 then 11
+  else if opcode = 0xd232 then 12
+  else 0
+
 /-- the alias comment `two_operand` puts before the mnemonic when there is no extension word -/
 def aliasComment (opcode : BitVec 16) (bw : Bool) (e : BitVec 16) : Option (List Char) :=
   let bc : List Char := if bw then t!"b" else t!"w"
   let rn : List Char := dec (u16 (opcode &&& 0xf))
-  if opcode &&& 0x00ff = 0x0003 then some t!"nop   --  "
-  else if opcode = 0x4130 then some t!"ret   --  "
-  else if opcode &&& 0xffb0 = 0x4130 then some (t!"pop." ++ bc ++ t!" r" ++ rn ++ t!"   --  ")
-  else if opcode &&& 0xffb0 = 0x41b0 then
-    some (t!"pop." ++ bc ++ t!" " ++ dec (s16 e) ++ t!"(r" ++ rn ++ t!")   --  ")
-  else if opcode = 0xc312 then some t!"clrc  --  "
-  else if opcode = 0xc222 then some t!"clrn  --  "
-  else if opcode = 0xc322 then some t!"clrz  --  "
-  else if opcode = 0xc232 then some t!"dint  --  "
-  else if opcode = 0xd312 then some t!"setc  --  "
-  else if opcode = 0xd222 then some t!"setn  --  "
-  else if opcode = 0xd322 then some t!"setz  --  "
-  else if opcode = 0xd232 then some t!"eint  --  "
-  else none
+  match aliasKind opcode with
+  | 1 => some t!"nop   --  "
+  | 2 => some t!"ret   --  "
+  | 3 => some (t!"pop." ++ bc ++ t!" r" ++ rn ++ t!"   --  ")
+  | 4 => some (t!"pop." ++ bc ++ t!" " ++ dec (s16 e) ++ t!"(r" ++ rn ++ t!")   --  ")
+  | 5 => some t!"clrc  --  "
+  | 6 => some t!"clrn  --  "
+  | 7 => some t!"clrz  --  "
+  | 8 => some t!"dint  --  "
+  | 9 => some t!"setc  --  "
+  | 10 => some t!"setn  --  "
+  | 11 => some t!"setz  --  "
+  | 12 => some t!"eint  --  "
+  | _ => none
 
 /-- `two_operand`; `e1 e2` are the two words after the opcode word -/
 def twoOperand (addr : BitVec 32) (instr : List Char) (opcode : BitVec 16) (pfx : Option (BitVec 16))
